@@ -53,6 +53,7 @@ struct _map_itr {
     m_map_t *m;
     map_elem *curr;
     bool removed;
+    size_t todo;        // slots still to be examined, starting from curr
 };
 
 static map_elem *hashmap_entry_find(const m_map_t *m, const char *key, bool find_empty);
@@ -62,6 +63,7 @@ static size_t hashmap_hash_string(const char *key);
 static int hashmap_rehash(m_map_t *m);
 static int hashmap_put(m_map_t *m, const char *key, void *value);
 static void clear_elem(m_map_t *m, map_elem *entry);
+static map_elem *first_empty_slot(const m_map_t *m);
 
 /*
  * Find the hashmap entry with the specified key, or an empty slot.
@@ -253,6 +255,18 @@ static void clear_elem(m_map_t *m, map_elem *removed_entry) {
     memset(removed_entry, 0, sizeof(map_elem));
 }
 
+/*
+ * Starting point for iterations: an empty slot (load factor is below 1, thus one exists).
+ */
+static map_elem *first_empty_slot(const m_map_t *m) {
+    MAP_FOREACH(m->table, m->table_size, {
+        if (!entry->key) {
+            return entry;
+        }
+    });
+    return m->table;
+}
+
 /** Public API **/
 
 /*
@@ -291,21 +305,31 @@ _public_ int m_map_itr_next(m_map_itr_t **itr) {
     M_PARAM_ASSERT(itr && *itr);
     
     m_map_itr_t *i = *itr;
+    map_elem *const end = &i->m->table[i->m->table_size];
     if (!i->curr) {
-        /* First time: start from first elem */
-        i->curr = &i->m->table[0];
-    } else {
+        /*
+         * First time: walk the whole table circularly, starting from an empty slot
+         * (there always is one, given the load factor), so that no probe chain wraps
+         * around the starting point: the back-shift done by a removal then never moves
+         * an already visited entry in front of the cursor.
+         */
+        i->curr = first_empty_slot(i->m);
+        i->todo = i->m->table_size;
+    } else if (!i->removed) {
         /* Normally: start from subsequent element */
-        i->curr = i->curr + 1 - i->removed;
+        i->curr = (i->curr + 1 == end) ? i->m->table : i->curr + 1;
+        i->todo--;
     }
     
     i->removed = false;
     bool found = false;
-    for (; i->curr < &i->m->table[i->m->table_size]; i->curr++) {
+    while (i->todo > 0) {
         if (i->curr->key) {
             found = true;
             break;
         }
+        i->curr = (i->curr + 1 == end) ? i->m->table : i->curr + 1;
+        i->todo--;
     }
     
     /* Automatically free it */
@@ -400,7 +424,10 @@ _public_ int m_map_iterate(const m_map_t *m, m_map_cb fn, void *userptr) {
     M_PARAM_ASSERT(fn);
     M_PARAM_ASSERT(m_map_len(m) > 0);
     
-    MAP_FOREACH(m->table, m->table_size, {
+    /* Circular walk starting from an empty slot: see m_map_itr_next() */
+    map_elem *const end = &m->table[m->table_size];
+    map_elem *entry = first_empty_slot(m);
+    for (size_t todo = m->table_size; todo > 0; todo--, entry = (entry + 1 == end) ? m->table : entry + 1) {
         if (!entry->key) {
             continue;
         }
@@ -417,12 +444,13 @@ _public_ int m_map_iterate(const m_map_t *m, m_map_cb fn, void *userptr) {
         }
         if (entry->key != key) {
             /* Run this entry again if fn() deleted it */
-            --entry;
+            entry = (entry == m->table) ? end - 1 : entry - 1;
+            todo++;
         } else if (num_entries != m->length) {
             /* Stop immediately if fn put/removed another entry */
             return -EACCES;
         }
-    });
+    }
     return 0;
 }
 
